@@ -37,6 +37,7 @@ class Renderer:
         self.p = profile
         self.features: set[str] = set()
         self.toks: list[str] = []
+        self.ws_choice: dict = {}
 
     def chance(self, k) -> bool:
         return self.rng.random() < self.p.get(k, 0.0)
@@ -92,9 +93,15 @@ class Renderer:
         if any(c.isspace() and c != ' ' for c in s):
             return None
         if '  ' in s:
-            if not self.chance('multispace'):
+            # one decision per value and rendering: every occurrence of the
+            # value is spelled the same way (the known-finding classifier
+            # relies on knowing exactly which values went through s"...")
+            if b not in self.ws_choice:
+                self.ws_choice[b] = self.chance('multispace')
+            if not self.ws_choice[b]:
                 return None
             self.features.add('string-multispace')
+            self.features.add('ws-value:' + b.hex())
         q = '"' if "'" in s or self.rng.random() < 0.6 else "'"
         if q in s:
             q = "'" if q == '"' else '"'
@@ -287,6 +294,7 @@ class Renderer:
             _, name, argnames, template, argvals = n
             self.emit('!=', name, '[', *argnames, ']', '{')
             sub = Renderer(self.rng, dict(self.p, comment=0.0))
+            sub.ws_choice = self.ws_choice
             sub.argnames = argnames
             sub.block(template)
             self.features |= sub.features
